@@ -7,9 +7,9 @@ C26 model: loop blocks as emitted by `DfirGraph::emit_loop_gate` (dfir_lang/src/
            || `!back.is_empty()` of every non-lazy delayed handoff whose consumer sits directly in this loop
            (`DelayType::Tick` for a root loop, `DelayType::Loop` — the remapped `defer_tick` — for a nested loop)
   * swap = `mem::swap(buf, back)` of every delayed handoff whose consumer sits directly in this loop
-  * if the list of gate conditions is empty (all entries lazy, no non-lazy delayed handoff) the body is emitted
-    unconditionally, exactly once — also for a nested loop (finding F26: a loop fed only through `batch_lazy`
-    runs on every tick / parent iteration)
+  * only a loop with no entry handoff at all is emitted unconditionally; a loop whose entries are all lazy
+    (`batch_lazy`) and that has no non-lazy delayed handoff has the gate `false`: it never runs on its own
+    (this is the behaviour after the fix of finding F26; before it such a loop ran on every tick)
   * the exit handoff (consumer `all_iterations()`) is declared once before the gate and accumulates over iterations
   * entry handoffs are filled by the parent before the gate and drained by the first iteration
 
@@ -57,10 +57,6 @@ def directDelays : List Node → List (Nat × Bool)
 /-- the gate condition of `emit_loop_gate` -/
 def gateOf (entries : List (Bool × List Int)) (delays : List (Nat × Bool)) (env : Env) : Bool :=
   entries.any (fun e => !e.1 && !e.2.isEmpty) || delays.any (fun d => !d.2 && !(env.get d.1).back.isEmpty)
-
-/-- `gate_checks.is_empty()` in `emit_loop_gate`: no non-lazy entry handoff and no non-lazy delayed handoff -/
-def noGateChecks (ml : Bool) (ex : Option Bool) (delays : List (Nat × Bool)) : Bool :=
-  ml && (match ex with | some l => l | none => true) && delays.all (·.2)
 
 /-- `#( #swap_code )*` -/
 def swapAll (delays : List (Nat × Bool)) (env : Env) : Env :=
@@ -117,11 +113,10 @@ def runNodes : Nat → Nat → List Node → Env → List Int → List Int → O
         | some r => some ⟨swapAll delays r.1, [], [], st.exit ++ r.2.1, st.outs ++ ((100 + id, [1]) :: r.2.2)⟩
         | none => none
       let st0 : LSt := ⟨env, b, extraB, [], []⟩
-      -- `gate_checks.is_empty()`: every entry is lazy and so is every delayed handoff of the loop —
-      -- `emit_loop_gate` then emits the body unconditionally (once), see finding F26
+      -- (a loop without any entry handoff would be emitted unconditionally; every loop of this language has
+      -- a main entry, so the gate is always an `if` / `while` — also when all its conditions are lazy, F26)
       let fin : Option LSt :=
-        if noGateChecks ml ex delays then step st0
-        else if d = 0 then
+        if d = 0 then
           (if gate st0 then step st0 else some st0)          -- root loop: `if`
         else
           (iterate gate step f st0).map (·.1)                -- nested loop: `while`
